@@ -244,6 +244,23 @@ pub fn c02(t: &Trace, r: &mut Report) {
                 if o.st != p.st || o.acc != p.acc {
                     r.fail(i, start, "transition", "set_input changed the phase".to_string());
                 }
+                // the time now in effect is the one just written (clamped to [1 ms, 20 s]); the duration rule below is
+                // applied with the times the envelope reports, so a write that is dropped or altered shows here
+                if op.len() >= 3 && matches!(op[1], "a" | "d" | "r") {
+                    let x = fbits(op[2]);
+                    if x.is_finite() {
+                        let want = x.max(0.001).min(20.0);
+                        let got = match op[1] {
+                            "a" => o.a,
+                            "d" => o.d,
+                            _ => o.r,
+                        };
+                        r.eval();
+                        if got.to_bits() != want.to_bits() {
+                            r.fail(i, start, "time-not-set", format!("set {} {} left the time at {} instead of {}", op[1], x, got, want));
+                        }
+                    }
+                }
             }
             "setacc" => valid = false,
             "ticks" => {
